@@ -489,18 +489,19 @@ def _copula_probe(ctx, d, cls, corr):
         hi = [0.5 * (ax[i] + ax[min(n - 1, i + 1)]) for i in range(n)]
         own_cells = [(lo[i], hi[i]) for i in range(n) if i != o]
         kcls = dict(cls, copula_dependent=d["copula"] != "independent", unequal_axes=unequal, margin_ge_1=k >= 1)
-        # C: the model's margin (compute_mu_h reads its neighbours off grid.axes[0]: ax0), then with the column sums
+        # C: the model's margin (since /repo fix of compute_mu_h the neighbours are those of the walked axis itself: the
+        #    model's neighbour axis ax0 is the axis), then with the column sums
         mirrors, cells_mirror = None, None
         if corr:
             nu_t = mc.model.models[k].levy_triplet.nu
             a_tilde = float(mc.model.models[k].levy_triplet.a)
             sigma = float(caller.diffusion_coefficient())
-            m_walked = rdll(ctx.lean(f"muhcells {wl(axes[0])} {wl(ax)} {o} []"))
+            m_walked = rdll(ctx.lean(f"muhcells {wl(ax)} {wl(ax)} {o} []"))
             span = fr(max(abs(ax[0]), abs(ax[-1])))
             cells_mirror = len(m_walked) == len(walked) and all(close(a, x, scale=span) and close(b, y, scale=span)
                                                                 for (a, b), (x, y) in zip(walked, m_walked))
             if not cells_mirror:
-                ctx.fail("corr", "c04.muhcells.model", dk, {"name": "Drivers/C04 muHCells(ax0, axis) vs the intervals compute_mu_h integrates over (margin)",
+                ctx.fail("corr", "c04.muhcells.model", dk, {"name": "Drivers/C04 muHCells(axis, axis) vs the intervals compute_mu_h integrates over (margin)",
                                                           "impl": walked[:4], "model": [[str(x) for x in r] for r in m_walked[:4]]}, cls=cls)
                 return
             head = f"{wl(ax)} {o} {w(h)} [] {1 if fv else 0}"
@@ -511,12 +512,12 @@ def _copula_probe(ctx, d, cls, corr):
             out = ctx.lean(f"chain {head} {w(sigma)} {w(mdrift)} {w(a_tilde)} {wl(mv)} {wl(m1v)} [0] []").split(" ")
             m_mut = rd(out[1])
             vals = [float(nu_t.integrate(float(a), float(b))) for a, b in m_walked]
-            m_muh = rd(ctx.lean(f"muh2 {wl(axes[0])} {wl(ax)} {o} [] {wl(vals)}"))
+            m_muh = rd(ctx.lean(f"muh2 {wl(ax)} {wl(ax)} {o} [] {wl(vals)}"))
             m_drift = fr(mdrift) + fr(a_tilde) + m_mut - m_muh
             m_colmean = m_drift + sum((fr(x) * fr(c) for x, c in zip(ax, cols)), Fraction(0))
             sc = max(fr(abs(mdrift) + abs(a_tilde) + sum(abs(v) for v in m1v) + abs_jump), Fraction(1, 2 ** 200))
             if not close(drift[k], m_drift, scale=sc):
-                ctx.fail("corr", "c04.process_drift.model", dk, {"name": "Drivers/C04 modelDrift + aTilde + muTilde - muH(ax0, axis) vs "
+                ctx.fail("corr", "c04.process_drift.model", dk, {"name": "Drivers/C04 modelDrift + aTilde + muTilde - muH(axis, axis) vs "
                                                                        "MarkovChainLevyCopula.process_drift()[k]", "impl": drift[k], "model": str(m_drift)}, cls=cls)
                 return
             mirrors = close(margin_mean, m_colmean, scale=sc)
